@@ -50,6 +50,7 @@ def run(ctx):
         ["cdd.class_.emit.class_", "cdd.function.emit.function", "cdd.argparse_function.emit.argparse_function"],
     )
     ctx.section(c02._escape, ctx, index)
+    ctx.section(c02._typewalk, ctx, index, "C04.typewalk")
     ctx.section(_nodefault, ctx, index, env)
     ctx.section(_classdefault, ctx, index, env)
     ctx.section(_required, ctx, index)
